@@ -142,8 +142,24 @@ func (o *optionDefinitions) asOptions() []util.Option { //nolint: gocyclo,gocogn
 
 			opts[i] = options.WithTermWidth(intVal)
 		case transportSystemOpenArgs:
-			strSliceVal, ok := opt.Value.([]string)
-			if !ok {
+			var strSliceVal []string
+
+			switch v := opt.Value.(type) {
+			case []string:
+				strSliceVal = v
+			case []interface{}:
+				// a yaml/json list decodes to a slice of interfaces
+				strSliceVal = make([]string, len(v))
+
+				for j, e := range v {
+					s, ok := e.(string)
+					if !ok {
+						panic("option transportSystemOpenArgs value must be an array of strings")
+					}
+
+					strSliceVal[j] = s
+				}
+			default:
 				panic("option transportSystemOpenArgs value must be an array of strings")
 			}
 
